@@ -23,6 +23,7 @@ ASSUMPTIONS = ["random.shuffle(l) is the only randomness the generators use (enf
                "iteration_utilities.grouper / itertools chain,starmap,repeat behave as modelled (results compared on every case)",
                "int(float(len)/size) == len // size for the list lengths in play (< 2**26)"]
 TRUSTED = ["build callbacks are observed through a logging wrapper (argument list and result of every call)"]
+PARTIAL = ['"the joint degree sequence is carried through unchanged" and "factory / main construction = direct construction" hold by construction of the model (definitional theorems); on the code they are established by the correspondence (both construction paths, deep before/after comparison)']
 TECHNIQUE = ("Coq proof (list induction / permutation and counting lemmas over an executable model, all shuffles "
              "quantified) + model/implementation correspondence with scripted shuffles + verified checker on the "
              "implementation's logged callback calls")
